@@ -121,6 +121,20 @@ CHECKS = {
         "counts sweep 240..272 (thorough: 65530..65541). Held on the files explored.",
         "Trusted: the defaults table transcribed from the documentation; fields without a documented default are exempt.",
     ),
+    "C08": (
+        "exploration",
+        "exactly-once + convergence + behaviour-probe monitor on a live in-thread worker",
+        "DESIGN.md section 3 C08",
+        "Random sequences (10..200) over all 42 verbs the main process can forward, raw and master-filtered, one at a time "
+        "and in bursts, some interleaved with HTTP traffic, on a real Server thread: every id gets exactly one terminal "
+        "answer; after filtered sequences QueryClustersHashes / QueryClusterById / the worker's own ConfigState (hook) / "
+        "the live backend table equal a reference ConfigState; active listeners serve, inactive ones refuse, route probes "
+        "land on the right backend; FAILURE leaves the worker state unchanged (signatures c07/...); SoftStop: one final "
+        "OK, no accept after the ack, exit. Witnesses are minimised by live re-execution. Held on the sequences explored.",
+        "Trusted: the reference ConfigState as the main process's view; UDP listeners are covered by exactly-once and "
+        "convergence only, HTTPS listeners by a liveness probe only; known design-level divergences are listed in "
+        "known_findings.json (one entry per verb/class).",
+    ),
 }
 
 ALL = ["C%02d" % i for i in range(1, 21)]
